@@ -62,6 +62,7 @@ enum ForgeKind {
 	HeightLock(u64), // ... signing a height-locked kernel
 	StateI2,         // ... claiming the invoice state and signing over the sender's fee
 	TwoEntries,      // ... with two participant entries
+	FeeCut(i64),     // ... signing over a fee lowered by d (raised if d<0) and claiming amount+d
 }
 
 #[derive(Clone, Debug, PartialEq)]
@@ -290,6 +291,7 @@ impl ForgeKind {
 			ForgeKind::HeightLock(h) => json!(["HeightLock", h]),
 			ForgeKind::StateI2 => json!(["StateI2"]),
 			ForgeKind::TwoEntries => json!(["TwoEntries"]),
+			ForgeKind::FeeCut(d) => json!(["FeeCut", d]),
 		}
 	}
 	fn from_json(v: &Value) -> ForgeKind {
@@ -304,6 +306,7 @@ impl ForgeKind {
 			"HeightLock" => ForgeKind::HeightLock(v[1].as_u64().unwrap()),
 			"StateI2" => ForgeKind::StateI2,
 			"TwoEntries" => ForgeKind::TwoEntries,
+			"FeeCut" => ForgeKind::FeeCut(v[1].as_i64().unwrap()),
 			x => panic!("unknown forge {}", x),
 		}
 	}
@@ -476,6 +479,9 @@ fn gen_script(p: &mut Prng, k: u64, thorough: bool) -> Script {
 			8 => ForgeKind::StateI2,
 			9 => ForgeKind::TwoEntries,
 			10 if exact_slack.is_some() => ForgeKind::Split(3),
+			11 | 12 if exact_slack.map(|k| k > 0).unwrap_or(false) => ForgeKind::FeeCut(10_500_000),
+			11 => ForgeKind::FeeCut(500_000),
+			12 | 13 => ForgeKind::FeeCut(-500_000),
 			_ => ForgeKind::Honest,
 		}
 	};
@@ -563,8 +569,10 @@ fn keychain_of(s: &Scen, w: usize) -> ExtKeychain {
 	s.with(w, |b, m| b.keychain(m)).unwrap()
 }
 
+/// key ids of forged commitments: unique per exchange (a commitment may exist only once on chain)
+static EXCHANGE_NO: std::sync::atomic::AtomicU32 = std::sync::atomic::AtomicU32::new(0);
 fn label_id(label: u32) -> Identifier {
-	ExtKeychain::derive_key_id(3, 77, 0, label, 0)
+	ExtKeychain::derive_key_id(3, 77, EXCHANGE_NO.load(std::sync::atomic::Ordering::Relaxed), label, 0)
 }
 
 fn to_v4(sl: &Slate) -> SlateV4 {
@@ -616,7 +624,14 @@ fn garbage_proof() -> RangeProof {
 struct KnownOut {
 	key: Identifier,
 	value: u64,
+	blind_value: u64, // the value the blinding factor was derived for
 	label: u64,
+}
+impl KnownOut {
+	fn commit(&self, kc: &ExtKeychain) -> Commitment {
+		let blind = kc.derive_key(self.blind_value, &self.key, SwitchCommitmentType::Regular).unwrap();
+		kc.secp().commit(self.value, blind).unwrap()
+	}
 }
 
 /// a reply together with its abstract description
@@ -695,7 +710,7 @@ fn forge(
 	for (label, value) in outs {
 		let id = label_id(*label as u32);
 		elems.push(build::output(*value, id.clone()));
-		known.push(KnownOut { key: id, value: *value, label: *label });
+		known.push(KnownOut { key: id, value: *value, blind_value: *value, label: *label });
 	}
 	// add_transaction_elements needs a valid kernel feature; the body does not depend on it
 	let keep = (sl.kernel_features, sl.kernel_features_args.clone());
@@ -736,9 +751,13 @@ fn forge(
 	}
 	let signable = guarded(|| sl.msg_to_sign()).map(|r| r.is_ok()).unwrap_or(false);
 	if signable {
+		// fill_round_2 looks for its own entry among the first num_participants entries only
+		let keep_n = sl.num_participants;
+		sl.num_participants = 1 + entries;
 		for c in &ctxs {
 			sl.fill_round_2(kc, &c.sec_key, &c.sec_nonce).unwrap();
 		}
+		sl.num_participants = keep_n;
 	}
 	sl.offset = kc.blind_sum(&sum).unwrap();
 	// keep only my entries
@@ -763,7 +782,7 @@ fn forge(
 		5 => SlateStateV4::Invoice2,
 		_ => SlateStateV4::Standard2,
 	};
-	if state != 5 {
+	if fee.is_none() {
 		v.fee = FeeFields::zero();
 	}
 	if let Some(c) = v.coms.as_mut() {
@@ -831,7 +850,7 @@ impl ExchInfo {
 				None => "None".into(),
 			},
 			match self.late {
-				Some((mc, mo, co, all)) => format!("(Some (mkLate {}%N {}%N {}%N {} None))", mc, mo, co, all),
+				Some((mc, mo, co, all)) => format!("(Some (mkLate {}%N {}%N {}%N {}))", mc, mo, co, all),
 				None => "None".into(),
 			},
 			self.ttl,
@@ -937,8 +956,9 @@ fn apply_mut(
 	kc_a: &ExtKeychain,
 	conf_h: u64,
 	id_other: Uuid,
-) -> Option<SlateV4> {
+) -> Option<(SlateV4, Vec<KnownOut>)> {
 	let mut v = r.slate.clone();
+	let mut known = r.outs.clone();
 	let secp = r.kc.secp();
 	let first_out = |c: &Option<Vec<CommitsV4>>| -> Option<usize> {
 		c.as_ref().and_then(|c| c.iter().position(|x| x.p.is_some()))
@@ -1079,14 +1099,14 @@ fn apply_mut(
 			// same blinding factor, value + d, with a proper proof for the new commitment
 			let i = first_out(&v.coms)?;
 			let c = v.coms.as_ref().unwrap()[i].c;
-			let k = r.outs.iter().find(|o| {
-				r.kc.commit(o.value, &o.key, SwitchCommitmentType::Regular).unwrap() == c
-			})?;
+			let ki = r.outs.iter().position(|o| o.commit(&r.kc) == c)?;
+			let k = r.outs[ki].clone();
 			let nv = k.value as i64 + d;
 			if nv < 0 {
 				return None;
 			}
-			let blind = r.kc.derive_key(k.value, &k.key, SwitchCommitmentType::Regular).unwrap();
+			known[ki].value = nv as u64;
+			let blind = r.kc.derive_key(k.blind_value, &k.key, SwitchCommitmentType::Regular).unwrap();
 			let nc = secp.commit(nv as u64, blind.clone()).unwrap();
 			let nonce = SecretKey::from_slice(secp, &[7u8; 32]).unwrap();
 			let proof = secp.bullet_proof(nv as u64, blind, nonce.clone(), nonce, None, None);
@@ -1174,7 +1194,7 @@ fn apply_mut(
 			c.swap(outs[0], outs[1]);
 		}
 	}
-	Some(v)
+	Some((v, known))
 }
 
 struct Oracle {
@@ -1240,7 +1260,10 @@ fn oracle_accepted(
 		// reserved coins: outputs of this wallet that are Locked under this tx log entry
 		let log_id = entry.as_ref().map(|e| e.id);
 		let reserved: Vec<OutputData> = s.with(A, |b, _| {
-			b.iter().filter(|x| x.status == OutputStatus::Locked && x.tx_log_entry == log_id && log_id.is_some()).collect()
+			let parent = entry.as_ref().map(|e| e.parent_key_id.clone());
+			b.iter()
+				.filter(|x| x.status == OutputStatus::Locked && x.tx_log_entry == log_id && log_id.is_some() && Some(x.root_key_id.clone()) == parent)
+				.collect()
 		});
 		let mut reserved_commits: Vec<Commitment> = reserved
 			.iter()
@@ -1265,7 +1288,7 @@ fn oracle_accepted(
 		let change: Vec<OutputData> = s.with(A, |b, _| {
 			b.iter()
 				.filter(|x| x.tx_log_entry == log_id && log_id.is_some() && x.status != OutputStatus::Locked && !x.is_coinbase)
-				.filter(|x| key_pair(&x.root_key_id) == key_pair(&cx.map(|c| c.parent.clone()).unwrap_or(x.root_key_id.clone())))
+				.filter(|x| Some(x.root_key_id.clone()) == entry.as_ref().map(|e| e.parent_key_id.clone()))
 				.collect()
 		});
 		let change: Vec<OutputData> = if sc.self_send {
@@ -1301,7 +1324,7 @@ fn oracle_accepted(
 		for c in &rest {
 			let mut found = None;
 			for k in &reply.outs {
-				if reply.kc.commit(k.value, &k.key, SwitchCommitmentType::Regular).unwrap() == *c {
+				if k.commit(&reply.kc) == *c {
 					found = Some(k.value);
 				}
 			}
@@ -1351,7 +1374,9 @@ fn oracle_accepted(
 		KernelFeatures::HeightLocked { lock_height, .. } => lock_height <= s.node.height() + 1,
 		_ => false,
 	};
-	if feat_ok && o.fails.is_empty() {
+	let inputs_on_chain = in_commits.iter().all(|c| matches!(s.node.chain.get_unspent(*c), Ok(Some(_))));
+	info["inputs_on_chain"] = json!(inputs_on_chain);
+	if feat_ok && inputs_on_chain && o.fails.is_empty() {
 		let client = s.node.client();
 		let _ = owner::post_tx(&client, &tx, false);
 		let mined = guarded(|| s.mine_pool(R2));
@@ -1377,6 +1402,7 @@ struct CaseOut {
 
 fn run_exchange(w: &World, sc: &Script, k: u64, out: &mut Vec<Value>, shard: u64) {
 	let s = &w.s;
+	EXCHANGE_NO.fetch_add(1, std::sync::atomic::Ordering::Relaxed);
 	let counter = if sc.self_send { A } else { R };
 	let late = sc.flow == Flow::Late;
 	// ---- funds and accounts
@@ -1452,7 +1478,7 @@ fn run_exchange(w: &World, sc: &Script, k: u64, out: &mut Vec<Value>, shard: u64
 				entries: 1,
 				kc: kc2,
 			});
-			other_reply.as_mut().unwrap().outs = vec![KnownOut { key: label_id(0), value: cb.amount, label: 2_000_000 }];
+			other_reply.as_mut().unwrap().outs = vec![KnownOut { key: label_id(0), value: cb.amount, blind_value: cb.amount, label: 2_000_000 }];
 			other = Some(to_v4(&rb));
 			b_info = Some((info, s1b.id));
 		}
@@ -1520,7 +1546,7 @@ fn run_exchange(w: &World, sc: &Script, k: u64, out: &mut Vec<Value>, shard: u64
 		let pc = read_ctx(s, R, &id).unwrap();
 		let rep = Reply {
 			slate: to_v4(&r),
-			outs: pc.outputs.iter().enumerate().map(|(j, (i, _, v))| KnownOut { key: i.clone(), value: *v, label: 1_000_000 + j as u64 }).collect(),
+			outs: pc.outputs.iter().enumerate().map(|(j, (i, _, v))| KnownOut { key: i.clone(), value: *v, blind_value: *v, label: 1_000_000 + j as u64 }).collect(),
 			ins: pc.inputs.iter().enumerate().map(|(j, (_, _, v))| (1_100_000 + j as u64, *v as i128)).collect(),
 			fee: pc.fee.map(|f| f & 0xff_ffff_ffff),
 			feat: 0,
@@ -1549,7 +1575,7 @@ fn run_exchange(w: &World, sc: &Script, k: u64, out: &mut Vec<Value>, shard: u64
 				let rec = rec.expect("received output not recorded");
 				Reply {
 					slate: to_v4(&r),
-					outs: vec![KnownOut { key: rec.key_id.clone(), value: rec.value, label: l }],
+					outs: vec![KnownOut { key: rec.key_id.clone(), value: rec.value, blind_value: rec.value, label: l }],
 					ins: vec![],
 					fee: None,
 					feat: 0,
@@ -1573,6 +1599,10 @@ fn run_exchange(w: &World, sc: &Script, k: u64, out: &mut Vec<Value>, shard: u64
 			ForgeKind::HeightLock(h) => forge(&kc_r, &s1, &[(l, amount)], &[], None, 2, Some(*h), 2, 1),
 			ForgeKind::StateI2 => forge(&kc_r, &s1, &[(l, amount)], &[], agreed_fee.map(|f| f & 0xff_ffff_ffff), 0, None, 5, 1),
 			ForgeKind::TwoEntries => forge(&kc_r, &s1, &[(l, amount)], &[], None, 0, None, 2, 2),
+			ForgeKind::FeeCut(d) => {
+				let f = agreed_fee.map(|f| f & 0xff_ffff_ffff).unwrap_or(1_000_000) as i64;
+				forge(&kc_r, &s1, &[(l, (amount as i64 + d) as u64)], &[], Some((f - d).max(1) as u64), 0, None, 2, 1)
+			}
 		}
 	};
 	// "other" reply when there is no second exchange: a second, independent answer to s1
@@ -1585,7 +1615,7 @@ fn run_exchange(w: &World, sc: &Script, k: u64, out: &mut Vec<Value>, shard: u64
 					let pc = read_ctx(s, R2, &id).unwrap();
 					Reply {
 						slate: to_v4(&r),
-						outs: pc.outputs.iter().enumerate().map(|(j, (i, _, v))| KnownOut { key: i.clone(), value: *v, label: 2_000_000 + j as u64 }).collect(),
+						outs: pc.outputs.iter().enumerate().map(|(j, (i, _, v))| KnownOut { key: i.clone(), value: *v, blind_value: *v, label: 2_000_000 + j as u64 }).collect(),
 						ins: pc.inputs.iter().enumerate().map(|(j, (_, _, v))| (2_100_000 + j as u64, *v as i128)).collect(),
 						fee: pc.fee.map(|f| f & 0xff_ffff_ffff),
 						feat: 0,
@@ -1646,6 +1676,7 @@ fn run_exchange(w: &World, sc: &Script, k: u64, out: &mut Vec<Value>, shard: u64
 		let id_other = b_info.as_ref().map(|x| x.1).unwrap_or(Uuid::from_bytes([8; 16]));
 		let id_other_abs = if b_info.is_some() { 2 } else { 8 };
 		let cur_ctx = read_ctx(s, A, &id);
+		let mut mreply = reply.clone();
 		// build the mutated wire record
 		let v = match m {
 			Mut::SigsAddSender(bogus) => {
@@ -1675,12 +1706,36 @@ fn run_exchange(w: &World, sc: &Script, k: u64, out: &mut Vec<Value>, shard: u64
 				});
 				Some(v)
 			}
-			_ => apply_mut(m, &reply, &other, &cur_ctx, &kc_a, conf_h, id_other),
+			_ => match apply_mut(m, &reply, &other, &cur_ctx, &kc_a, conf_h, id_other) {
+				Some((v, known)) => {
+					mreply.outs = known;
+					Some(v)
+				}
+				None => None,
+			},
 		};
 		let v = match v {
 			Some(v) => v,
 			None => continue, // not applicable to this reply
 		};
+		if std::env::var("C02_DEBUG").is_ok() {
+			eprintln!("REPLY  {}", serde_json::to_string(&reply.slate).unwrap());
+			eprintln!("OTHER  {}", serde_json::to_string(&other).unwrap());
+			eprintln!("MUTANT {}", serde_json::to_string(&v).unwrap());
+			if let Ok(c) = s.with(A, |b, mm| b.get_private_context(mm, id.as_bytes())) {
+				let secp = kc_a.secp();
+				let my_n = PublicKey::from_secret_key(secp, &c.sec_nonce).unwrap();
+				let my_k = PublicKey::from_secret_key(secp, &c.sec_key).unwrap();
+				for (name, sl) in &[("reply", &reply.slate), ("mutant", &v)] {
+					if sl.sigs.is_empty() { continue; }
+					let ns = PublicKey::from_combination(secp, vec![&sl.sigs[0].nonce, &my_n]).unwrap();
+					let ks = PublicKey::from_combination(secp, vec![&sl.sigs[0].xs, &my_k]).unwrap();
+					let msg = KernelFeatures::Plain { fee: c.fee.unwrap() }.kernel_sig_msg().unwrap();
+					let r = vharness::core::libtx::aggsig::verify_partial_sig(secp, sl.sigs[0].part.as_ref().unwrap(), &ns, &sl.sigs[0].xs, Some(&ks), &msg);
+					eprintln!("VERIFY {} nonce_sum {:?} -> {:?}", name, ns, r);
+				}
+			}
+		}
 		let wire = match through_wire(&v) {
 			Ok(x) => x,
 			Err(e) => {
@@ -1735,8 +1790,12 @@ fn run_exchange(w: &World, sc: &Script, k: u64, out: &mut Vec<Value>, shard: u64
 				vec![1, class as i128, if nlog_after != nlog_before { 1 } else { 0 }]
 			}
 			Ok(Ok(fin)) => {
+				if std::env::var("C02_DEBUG").is_ok() {
+					eprintln!("FINAL {}", serde_json::to_string(&to_v4(fin)).unwrap());
+					eprintln!("KERNEL {:?}", fin.tx.as_ref().unwrap().kernels()[0]);
+				}
 				consumed = true;
-				let (f, i) = oracle_accepted(w, sc, fin, &id, &ctx_before, &reply, ttl_expired, counter);
+				let (f, i) = oracle_accepted(w, sc, fin, &id, &ctx_before, &mreply, ttl_expired, counter);
 				oracle = f;
 				info = i;
 				let tx = fin.tx.as_ref();
@@ -1819,14 +1878,17 @@ fn run_exchange(w: &World, sc: &Script, k: u64, out: &mut Vec<Value>, shard: u64
 					end_fail.push(format!("cancel_tx after refused replies failed: {:?}", r));
 				}
 				// the reserved coins are free again
-				let still = s.with(A, |b, _| b.iter().filter(|x| x.status == OutputStatus::Locked && x.tx_log_entry == txid).count());
+				let par = ctx0.as_ref().map(|c| c.parent.clone());
+				let still = s.with(A, |b, _| {
+					b.iter().filter(|x| x.status == OutputStatus::Locked && x.tx_log_entry == txid && Some(x.root_key_id.clone()) == par).count()
+				});
 				if still != 0 {
 					end_fail.push("outputs still locked after cancel".into());
 				}
 			} else if !late {
 				// the unmutated reply is still good after all the refused ones
 				if let Ok(wire) = through_wire(&reply.slate) {
-					let acceptable = matches!(sc.forge, ForgeKind::Honest | ForgeKind::Redo | ForgeKind::TwoEntries);
+					let acceptable = matches!(sc.forge, ForgeKind::Honest | ForgeKind::Redo);
 					let r = guarded(|| s.with(A, |b, mm| owner::finalize_tx(b, mm, &wire)));
 					if acceptable && sc.active_ok && sc.flow != Flow::Sync {
 						match r {
